@@ -158,6 +158,13 @@ struct Value {
         }
         insert(data, s);
     }
+    // nesting depth of the value being parsed ([ [ ... ] ] and f(g(...))): the parser recurses once per level
+    struct NestingGuard {
+        static int& level() { static int l = 0; return l; }
+        NestingGuard() { ++level(); }
+        ~NestingGuard() { --level(); }
+        int depth() const { return level(); }
+    };
     Value(const char* v, size_t vlen = 0, bool non_numeric = false) {
         if (!vlen) vlen = strlen(v);
         if (vlen == 2 && v[0] == '0' && v[1] == 'x') {
@@ -168,18 +175,16 @@ struct Value {
         str = v;
         type = T_STRING;
         if (vlen > 1 && v[0] == '[' && v[vlen - 1] == ']') {
-            static int bracket_depth = 0;
-            if (bracket_depth >= 200) {
+            NestingGuard nesting; // (counts this level until the scope is left, also when an inner value throws)
+            if (nesting.depth() > 200) {
                 fprintf(stderr, "parse error, brackets nested too deeply (more than 200 levels)\n");
                 exit(1);
             }
-            ++bracket_depth;
             CScript s;
             // decompile from Bitcoin Script
             for (auto& it : parse_args(&v[1], vlen - 2)) {
                 it >> s;
             }
-            --bracket_depth;
             insert(data, s);
             type = T_DATA;
             return;
